@@ -1133,6 +1133,14 @@ func (u *emUnit) method(fo *types.Func) emDesc {
 			if !ok {
 				u.fail(st.Pos(), "%s: call not understood", fo.Name())
 			}
+			if gk, isGuard := u.guardHelper(g); isGuard {
+				// a private helper that IS the width guard (requireM8(name) ...): same descriptor as the inline guard
+				if out.guard != "GNone" || out.effect != "ENone" {
+					u.fail(st.Pos(), "%s: a second width guard / a guard after the tracker update", fo.Name())
+				}
+				out.guard = gk
+				continue
+			}
 			if g.Name() == "AssumeREP" || g.Name() == "AssumeSEP" {
 				if u.trackerFn(g.Name()) != g || len(c.Args) != 1 || out.effect != "ENone" {
 					u.fail(st.Pos(), "%s: tracker update not understood", fo.Name())
@@ -1208,6 +1216,84 @@ func (u *emUnit) method(fo *types.Func) emDesc {
 		u.fail(fo.Pos(), "%s reaches write() but no emit call was found at the top level of its body", fo.Name())
 	}
 	return out
+}
+
+// widthCond recognises [!]recv.IsM16bit() / [!]recv.IsX16bit() (the flags tracker's methods) and returns the guard that
+// panics exactly when the condition holds
+func (u *emUnit) widthCond(cond ast.Expr, recv types.Object) (string, bool) {
+	cond = ast.Unparen(cond)
+	neg := false
+	if un, ok := cond.(*ast.UnaryExpr); ok && un.Op == token.NOT {
+		neg = true
+		cond = ast.Unparen(un.X)
+	}
+	c, ok := cond.(*ast.CallExpr)
+	if !ok || len(c.Args) != 0 {
+		return "", false
+	}
+	se, ok := ast.Unparen(c.Fun).(*ast.SelectorExpr)
+	if !ok {
+		return "", false
+	}
+	id, ok := ast.Unparen(se.X).(*ast.Ident)
+	if !ok || u.p.info.Uses[id] != recv {
+		return "", false
+	}
+	g := u.callee(c)
+	if g == nil || u.trackerFn(g.Name()) != g {
+		return "", false
+	}
+	switch {
+	case g.Name() == "IsM16bit" && !neg:
+		return "GPanicIfM16", true
+	case g.Name() == "IsM16bit" && neg:
+		return "GPanicIfM8", true
+	case g.Name() == "IsX16bit" && !neg:
+		return "GPanicIfX16", true
+	case g.Name() == "IsX16bit" && neg:
+		return "GPanicIfX8", true
+	}
+	return "", false
+}
+
+var guardNegate = map[string]string{"GPanicIfM16": "GPanicIfM8", "GPanicIfM8": "GPanicIfM16", "GPanicIfX16": "GPanicIfX8", "GPanicIfX8": "GPanicIfX16"}
+
+// guardHelper: is g a private method whose whole body is a width guard?  Two spellings:
+//	if COND { panic(...) }                 panics iff COND
+//	if COND { return }; panic(...)         panics iff not COND
+// Its parameters (the method name for the message) can then only occur inside the panic argument.
+func (u *emUnit) guardHelper(g *types.Func) (string, bool) {
+	d := u.decls[g]
+	if d == nil || d.Body == nil || d.Recv == nil || len(d.Recv.List) != 1 || len(d.Recv.List[0].Names) != 1 {
+		return "", false
+	}
+	if g.Type().(*types.Signature).Results().Len() != 0 {
+		return "", false
+	}
+	recv := u.p.info.Defs[d.Recv.List[0].Names[0]]
+	body := d.Body.List
+	if len(body) < 1 || len(body) > 2 {
+		return "", false
+	}
+	ifs, ok := body[0].(*ast.IfStmt)
+	if !ok || ifs.Init != nil || ifs.Else != nil || len(ifs.Body.List) != 1 {
+		return "", false
+	}
+	gk, ok := u.widthCond(ifs.Cond, recv)
+	if !ok {
+		return "", false
+	}
+	if len(body) == 1 {
+		if u.isPanicStmt(ifs.Body.List[0]) {
+			return gk, true
+		}
+		return "", false
+	}
+	ret, ok := ifs.Body.List[0].(*ast.ReturnStmt)
+	if !ok || len(ret.Results) != 0 || !u.isPanicStmt(body[1]) {
+		return "", false
+	}
+	return guardNegate[gk], true
 }
 
 func (u *emUnit) isPanicStmt(st ast.Stmt) bool {
